@@ -23,7 +23,9 @@ struct Slot {
     corners: &'static [&'static str],
 }
 
-const TIMES: &[&str] = &["0", "-1", "1", "16777216", "1000000000", "2000000000", "2147483647", "-2147483648"];
+// (2^24 and 2^30 are where an f32 time stops resolving 1 ms / 64 ms steps: a value on the step and one 500 ms below it, so that
+// an object of ordinary length straddles the step)
+const TIMES: &[&str] = &["0", "-1", "1", "16777216", "16776716", "1000000000", "1073741324", "2000000000", "2147483647", "-2147483648"];
 const COORD: &[&str] = &["0", "512", "10000", "-10000", "131072", "-131072"];
 const ATTR: &[&str] = &["0", "10"];
 
@@ -151,7 +153,7 @@ fn run_case(l: &mut Local<'_>, text: &str, rich: bool) {
 
 fn main() {
     let ctx = Ctx::from_env_caps("C05", 52, 1500);
-    ctx.rule("adversarial universes: 4 templates (full 5-object map, single spinner, single slider, hold+circle) x 4 modes; every set of <= 2 (quick) / <= 3 (thorough, reduced to the full template) deviations from the defaults, each deviation = one corner value of one numeric slot (times up to +-2^31, coordinates up to +-131072, slider length 0..20000, repeats 0..100, spinner/hold lengths -5..10^6 relative to the (deviated) start, beat lengths at the clamps / negative / NaN, difficulty settings at their clamps, versions 3/5/7/128, curve types); a case is in the domain iff it decodes, check_suspicion() is Ok and sliders have <= 100 repeats and <= 20000 px. realistic universes: grammar maps (times within [0, 3h]) executed by workers built with debug assertions and overflow checks. Subject = the whole public battery (bpm, 3 conversion entry points, difficulty, strains, gradual difficulty by next and nth, gradual performance, performance with counts up to 3x the object count, attribute builder) for every reachable mode x settings menu (rates 0.01 and 100, overrides +-20, key mods 1K-10K). Oracle = worker exit status, catch_unwind, 3 s and 1 GiB per case; non-trivial = case is in the domain");
+    ctx.rule("adversarial universes: 4 templates (full 5-object map, single spinner, single slider, hold+circle) x 4 modes; every set of <= 2 (quick) / <= 3 (thorough, reduced to the full template) deviations from the defaults, each deviation = one corner value of one numeric slot (times up to +-2^31 incl. 500 ms below 2^24 and 2^30, coordinates up to +-131072, slider length 0..20000, repeats 0..100, spinner/hold lengths -5..10^6 relative to the (deviated) start, beat lengths at the clamps / negative / NaN, difficulty settings at their clamps, versions 3/5/7/128, curve types); a case is in the domain iff it decodes, check_suspicion() is Ok and sliders have <= 100 repeats and <= 20000 px. realistic universes: grammar maps (times within [0, 3h]) executed by workers built with debug assertions and overflow checks. Subject = the whole public battery (bpm, 3 conversion entry points, difficulty, strains, gradual difficulty by next and nth, gradual performance, performance with counts up to 3x the object count, attribute builder) for every reachable mode x settings menu (rates 0.01 and 100, overrides +-20, key mods 1K-10K). Oracle = worker exit status, catch_unwind, 3 s and 1 GiB per case; non-trivial = case is in the domain");
 
     let rich = !ctx.quick();
     // order: cheapest universes first, so that the internal wall cap can only ever cut the largest one short
